@@ -211,6 +211,70 @@ macro_rules! guard_h {
     };
 }
 
+/// One GUARD query for ALL opcodes on the same symbolic state of depth `n` (quick tier: Kani's per-harness overhead —
+/// goto-cc + three goto-instrument passes, ~20 s — dominates the per-opcode instances; the stack construction is shared
+/// here).  Same assertions as `guard_h`, the opcode is named in every message.
+macro_rules! guard_all {
+    ($name:ident, $n:expr, $unw:expr, [$($op:ident),*]) => {
+        #[kani::proof]
+        #[kani::unwind($unw)]
+        #[kani::stub(std::hash::RandomState::new, rs_conc)]
+        #[kani::stub(std::rc::Rc::drop_slow, rc_drop_slow_noop)]
+        #[kani::stub(std::collections::HashMap::len, hm_len_any)]
+        #[kani::stub(std::collections::HashMap::is_empty, hm_is_empty_any)]
+        fn $name() {
+            let (g, rs) = build($n, 300);
+            $( {
+                let op = OpcodeKind::$op;
+                let i = ref_index(op);
+                let e = g.can_emit(op);
+                if e {
+                    let arg = if i == I_GET || i == I_BINGET || i == I_LONG_BINGET { 0 } else { rs.m };
+                    if safe_mode(&g) {
+                        assert!(pre(i, &rs, arg), concat!("enabled opcode violates the reference stack/memo discipline [", stringify!($op), "]"));
+                        assert!(kinds_pre(i, &rs), concat!("enabled opcode gets an operand of the wrong kind [", stringify!($op), "]"));
+                    }
+                    if i == I_EXT1 || i == I_EXT2 || i == I_EXT4 {
+                        assert!(g.allow_ext_opcodes, concat!("EXT opcode enabled without the opt-in flag [", stringify!($op), "]"));
+                    }
+                    if i == I_NEXT_BUFFER || i == I_READONLY_BUFFER {
+                        assert!(g.allow_buffer_opcodes, concat!("buffer opcode enabled without the opt-in flag [", stringify!($op), "]"));
+                    }
+                    assert!(i != I_FRAME && i != I_STOP, "FRAME/STOP must never be a body choice");
+                    if i == I_PROTO {
+                        assert!(!g.state.proto_emitted, "PROTO enabled twice");
+                    }
+                }
+                if i == I_NONE {
+                    assert!(e, "NONE is always enabled (the valid set is never empty)");
+                }
+            } )*
+            kani::cover!(true);
+            std::mem::forget(g);
+        }
+    };
+}
+
+/// all guard covers of one depth in one query
+macro_rules! guard_cover_all {
+    ($name:ident, $n:expr, $unw:expr, [$($op:ident),*]) => {
+        #[kani::proof]
+        #[kani::unwind($unw)]
+        #[kani::stub(std::hash::RandomState::new, rs_conc)]
+        #[kani::stub(std::rc::Rc::drop_slow, rc_drop_slow_noop)]
+        #[kani::stub(std::collections::HashMap::len, hm_len_any)]
+        #[kani::stub(std::collections::HashMap::is_empty, hm_is_empty_any)]
+        fn $name() {
+            let (mut g, rs) = build($n, 300);
+            g.allow_ext_opcodes = true;
+            g.allow_buffer_opcodes = true;
+            g.state.proto_emitted = false;
+            $( kani::cover!(g.can_emit(OpcodeKind::$op)); )*
+            std::mem::forget(g);
+        }
+    };
+}
+
 /// reachability of each guard (C12, vacuity): some state of this depth enables the opcode
 macro_rules! guard_cover {
     ($name:ident, $op:ident, $n:expr, $unw:expr) => {
